@@ -67,6 +67,17 @@ Theorem C12_data_entry_is_bound k g v :
 Proof. exact (data_entry_visible k g v). Qed.
 Print Assumptions C12_data_entry_is_bound.
 
+(* every data map EnvFromMap accepts, in any presentation order: each entry is bound in the root scope to the
+   conversion of its Go value and no other name is bound (Proofs/DataVisible.v) *)
+From TW Require Import DataVisible.
+Theorem C12_every_entry_of_every_data_map_is_bound (data : list (bytes * goval)) root :
+  NoDup (map fst data) -> env_from_map data = EnvOk root ->
+  (exists fr, root = [fr]) /\
+  (forall k g, In (k, g) data -> exists v, to_object g = Some v /\ env_get root k = Some v) /\
+  (forall k, ~ In k (map fst data) -> env_get root k = None).
+Proof. exact (data_map_binds_every_entry data root). Qed.
+Print Assumptions C12_every_entry_of_every_data_map_is_bound.
+
 Example C12_example :
   to_object (GStruct [(bs "Name", true, GStr (bs "bob")); (bs "age", false, GInt 3);
                       (bs "Tags", true, GSlice [GPtr (GInt 7); GNilPtr])]) =
